@@ -128,10 +128,16 @@ func Build(spec Spec) *Built {
 		env *Env
 	}
 	var twin *Type
+	plainOf := map[*Pkg]*Func{}
+	pubAlias := map[*Type]string{}
 	var infos []tinfo
 	tmpls := AllTemplates()
 	nest := Nestings()
-	tcur := r.Intn(len(tmpls)) // rotating cursors give every template/nesting a turn across programs
+	queue := make([]int, len(tmpls)) // fair queue: every template gets its turn as soon as a context accepts it
+	for i := range queue {
+		queue[i] = i
+	}
+	base.Shuffle(r, queue)
 	ncur := r.Intn(len(nest))
 
 	for di, d := range bt.DPkgs {
@@ -168,6 +174,9 @@ func Build(spec Spec) *Built {
 			n, fn := b.FuncNode(d, name, to, po, fapi, nil)
 			fapi.Decls = append(fapi.Decls, n)
 			helpers = append(helpers, fn)
+			if k == 2 {
+				plainOf[d] = fn
+			}
 		}
 		if fexcl != nil {
 			// annotated functions in a pool-token file: inert while the file is excluded (C14)
@@ -263,6 +272,13 @@ func Build(spec Spec) *Built {
 			n, fn = b.MethodNode(t, "Val", false, !all && r.Chance(1, 3), vpo, fapi, nil)
 			fapi.Decls = append(fapi.Decls, n)
 			env.Val = fn
+			if !exportedName(t.Name) && t.Kind == "struct" {
+				// an unexported annotated type that importers reach through an exported alias and an exported container type
+				pub := "Pub" + strings.ToUpper(t.Name[:1]) + t.Name[1:]
+				fapi.Decls = append(fapi.Decls, b.tstmt("type "+pub+" = %T", free(refT(t, SubOther), TONL)))
+				fapi.Decls = append(fapi.Decls, b.tstmt("type "+pub+"Index map[string]%T", free(refT(t, SubOther), TONL)))
+				pubAlias[t] = pub
+			}
 			env.Helper = helpers[r.Intn(len(helpers))]
 			if t.Kind == "struct" {
 				var ppo *Allow
@@ -281,10 +297,9 @@ func Build(spec Spec) *Built {
 			// same-package contexts
 			pick := func(filter func(Tmpl) bool, n int) []Tmpl {
 				var out []Tmpl
-				for tries := 0; len(out) < n && tries < 4*len(tmpls); tries++ {
-					tm := tmpls[tcur%len(tmpls)]
-					tcur++
-					if tm.Kind != "" && tm.Kind != t.Kind {
+				for qi := 0; len(out) < n && qi < len(queue); qi++ {
+					tm := tmpls[queue[qi]]
+					if tm.OnlyU || (tm.Kind != "" && tm.Kind != t.Kind) {
 						continue
 					}
 					if t.Kind == "int" && (tm.Cat == IMM) {
@@ -300,6 +315,10 @@ func Build(spec Spec) *Built {
 						continue
 					}
 					out = append(out, tm)
+					// fair rotation: a template moves to the back of the queue only when it is used
+					idx := queue[qi]
+					queue = append(append(queue[:qi:qi], queue[qi+1:]...), idx)
+					qi--
 				}
 				return out
 			}
@@ -477,6 +496,36 @@ func Build(spec Spec) *Built {
 		}
 	}
 
+	if spec.Impl {
+		// cross-package @implements whose interface mentions a named type of the declaring package; with test files the
+		// declaring package exists twice in one run (plain and test variant) and so does the implementing package
+		d := bt.DPkgs[0]
+		uf := b.NewFile(u0, "codec.go")
+		mkc := func(name string, codes []string, methods []string) {
+			t := &Type{Pkg: u0, Name: name, Kind: "struct", Impl: []string{"x"}, ImplCodes: codes, File: uf}
+			n := &Node{TypeDecl: t, Doc: []string{" " + name + " is generated.", " @implements " + q(d) + "Codec"}}
+			n.Pre = []*Line{b.line("type "+name+" struct{}", &Use{Kind: UImpl, T: t})}
+			uf.Decls = append(uf.Decls, n)
+			for _, m := range methods {
+				uf.Decls = append(uf.Decls, &Node{Fn: &Func{Pkg: u0, Name: "m", File: uf}, Pre: []*Line{b.line("func (c " + name + ") " + m)}})
+			}
+		}
+		mkc("GoodCodec", nil, []string{"Encode(t " + q(d) + "Token) []" + q(d) + "Token { return nil }", "Label() string { return \"g\" }"})
+		mkc("HalfCodec", []string{"IMPL03"}, []string{"Encode(t " + q(d) + "Token) []" + q(d) + "Token { return nil }"})
+		uf.Decls = append(uf.Decls, &Node{Fn: &Func{Pkg: u0, Name: "Anchor", File: uf}, Pre: []*Line{b.line("func Anchor() {}")}})
+		for _, f := range d.Files {
+			if f.ExtTest {
+				f.Decls = append(f.Decls, &Node{Pre: []*Line{b.line("var _ = «m/u0».Anchor")}})
+			}
+		}
+	}
+	for _, inf := range infos {
+		for _, d := range bt.DPkgs {
+			if d != inf.t.Pkg && plainOf[d] != nil && !spec.SameNames {
+				inf.env.OtherPkg, inf.env.OtherFunc = d, plainOf[d]
+			}
+		}
+	}
 	// using packages
 	for ui, u := range bt.UPkgs {
 		fa := b.NewFile(u, "a.go")
@@ -509,9 +558,8 @@ func Build(spec Spec) *Built {
 			t, env := inf.t, inf.env
 			pick := func(filter func(Tmpl) bool, n int) []Tmpl {
 				var out []Tmpl
-				for tries := 0; len(out) < n && tries < 4*len(tmpls); tries++ {
-					tm := tmpls[tcur%len(tmpls)]
-					tcur++
+				for qi := 0; len(out) < n && qi < len(queue); qi++ {
+					tm := tmpls[queue[qi]]
 					if tm.OnlyD || (tm.Kind != "" && tm.Kind != t.Kind) {
 						continue
 					}
@@ -531,6 +579,10 @@ func Build(spec Spec) *Built {
 						continue
 					}
 					out = append(out, tm)
+					// fair rotation: a template moves to the back of the queue only when it is used
+					idx := queue[qi]
+					queue = append(append(queue[:qi:qi], queue[qi+1:]...), idx)
+					qi--
 				}
 				return out
 			}
@@ -627,6 +679,32 @@ func Build(spec Spec) *Built {
 				n, _ := b.FuncNode(u, b.d("ni"), false, nil, fnoimp, w.Wrap(b, body))
 				n.Pin = fnoimp.Name
 				fnoimp.Decls = append(fnoimp.Decls, n)
+			}
+			if pa := pubAlias[t]; pa != "" {
+				// instantiations of the unexported type through its exported alias / container (elided element)
+				var body []*Node
+				for _, tm := range tmpls {
+					if tm.Name == "lit" || tm.Name == "new" || tm.Name == "var" || tm.Name == "lit-addr" || tm.Name == "typed-assign" {
+						ns := tm.Make(b, t, env)
+						for _, n := range ns {
+							for _, l := range n.flat(nil) {
+								l.Feature = "unexported-type-through-exported-alias"
+								for _, us := range l.Uses {
+									if us.Kind == UTypeRef {
+										us.SpellAs = q(t.Pkg) + pa
+									}
+								}
+							}
+						}
+						body = append(body, ns...)
+					}
+				}
+				x := b.v()
+				el := b.stmt(x+" := "+q(t.Pkg)+pa+"Index{\"k\": {}}", useT(ULit, t, ""), free(refT(t, SubLit), TONL, PKGO))
+				el.Pre[0].Feature = "unexported-type-through-exported-alias"
+				body = append(body, el, b.stmt("_ = "+x))
+				n, _ := b.FuncNode(u, b.d("viaPub"), false, nil, f, body)
+				f.Decls = append(f.Decls, n)
 			}
 			// inside a @testonly function of the using package: TONL silent, everything else as usual
 			if ui != 1 { // package u1 declares no annotated item of its own
@@ -817,6 +895,8 @@ func (b *B) addImpl(d *Pkg, f *File) {
 			f.Decls = append(f.Decls, &Node{Fn: &Func{Pkg: d, Name: "m", File: f}, Pre: []*Line{b.line("func (s " + name + ") " + m)}})
 		}
 	}
+	f.Decls = append(f.Decls, &Node{Pre: []*Line{b.line("type Token struct{ V int }")}})
+	f.Decls = append(f.Decls, &Node{Pre: []*Line{b.line("type Codec interface {")}, Kids: []*Node{b.stmt("Encode(t Token) []Token"), b.stmt("Label() string")}, Post: []*Line{b.line("}")}})
 	mk("Sq", "Shape", nil, []string{"Area() int { return 1 }", "Name() string { return \"sq\" }"})
 	mk("Tri", "Shape", []string{"IMPL03"}, []string{"Area() int { return 1 }"})
 	mk("Circ", "nosuchpkg.Shape", []string{"IMPL01"}, nil)
